@@ -647,6 +647,15 @@ func (s *Store) Flush() error {
 	verifhook.At("store.flush.stamped")
 
 	if !s.outstandingWork() {
+		// Nothing to write, but a writer may have started waiting for this
+		// flush after an earlier flush already wrote its work. Release it,
+		// otherwise it waits until some other writer causes a flush.
+		s.rateLk.Lock()
+		if s.flushNotice != nil {
+			close(s.flushNotice)
+			s.flushNotice = nil
+		}
+		s.rateLk.Unlock()
 		verifhook.At("store.flush.nowork")
 		return nil
 	}
